@@ -231,3 +231,18 @@ Fixpoint timer_ready (started : bool) (ops : list op) : bool :=
   | Periodic _ :: r => started && timer_ready started r
   | _ :: r => timer_ready started r
   end.
+
+(* ------------------------------------------------------------------ *)
+(* The import of the package itself                                    *)
+
+(* nothing but "None" is offered by a selector built without modules *)
+Definition offers_nothing (r : selector) : Prop :=
+  modes r = [] /\ ctor_calls r = [] /\ option_names r = ["None"] /\ preselection r = "None".
+
+(* importing the package fails, and not because there is no such package:
+   any exception that is not an ImportError, or an ImportError whose name is
+   neither the package nor the first component of its dotted name *)
+Definition package_import_fault (pkgname : string) (i : pkg_import) : Prop :=
+  i = ImportRaisesOther \/
+  exists ename, i = ImportRaisesImportError ename /\
+                ename <> Some pkgname /\ ename <> Some (top_component pkgname).
